@@ -32,7 +32,10 @@ fn i_form(r: &mut Rec, k: u64) {
             r.clone_i(0, 2);
             r.i_assign("mul", "assign_ref", 2, 1, |d, s| *d *= s)
         }
-        _ => r.ii_opt("checked_mul", "method", 0, 1, 2, |a, b| a.checked_mul(b)),
+        _ => {
+            r.ii_opt("checked_mul", "trait", 0, 1, 2, |a, b| CheckedMul::checked_mul(a, b));
+            r.ii_opt("checked_mul", "method", 0, 1, 2, |a, b| a.checked_mul(b))
+        }
     };
 }
 
